@@ -415,6 +415,13 @@ extern "C" {
       case 23: out = x->shallow_copy(); break;
       case 24: out = x->getitem_nothing(); break;
       case 28: out = x->getitem_range_nowrap((int64_t)iargs[0], (int64_t)iargs[1]); break;
+      case 30: {
+        // a copy of the array that carries Identities (setidentities() is the one mutator of the Content API: it is
+        // applied to a deep copy, so the operand itself stays untouched)
+        out = x->deep_copy(true, true, true);
+        const_cast<ak::Content*>(out.get())->setidentities();
+        break;
+      }
       case 29: {
         ak::ContentPtrVec others;
         others.push_back(content(b));
